@@ -3819,10 +3819,11 @@ func runFILTERALL(c *Ctx, r *Result, rule string) int {
 	if f == nil {
 		return 0
 	}
-	var items *ssa.Parameter
+	// the list of items is whichever reflect.Value parameter the loop reads by index
+	isItems := map[ssa.Value]bool{}
 	for _, p := range f.Params {
 		if isReflectValue(p.Type()) {
-			items = p
+			isItems[p] = true
 		}
 	}
 	n := 0
@@ -3830,8 +3831,11 @@ func runFILTERALL(c *Ctx, r *Result, rule string) int {
 		reads := false
 		for b := range l.body {
 			for _, ins := range b.Instrs {
-				if call, ok := ins.(*ssa.Call); ok && staticName(call) == "reflect.Value.Index" && items != nil && len(call.Call.Args) == 2 && call.Call.Args[0] == ssa.Value(items) {
-					reads = true
+				if call, ok := ins.(*ssa.Call); ok && staticName(call) == "reflect.Value.Index" && len(call.Call.Args) == 2 && isItems[call.Call.Args[0]] {
+					// indexed by the loop's own counter (not the inner loop over an index array)
+					if phi, isPhi := call.Call.Args[1].(*ssa.Phi); isPhi && phi.Block() == l.header {
+						reads = true
+					}
 				}
 			}
 		}
@@ -4519,5 +4523,157 @@ func runHALFADD(c *Ctx, r *Result, rule string, fns []*ssa.Function) int {
 		}
 	}
 	r.Count(rule+" math.Floor/Ceil/Trunc calls scanned", scanned)
+	return n
+}
+
+// ---------------------------------------------------------------------------------------
+// ACCFRESH (C02): the survivors of a filter are collected in a list of their own.
+//
+// Every reflect.Append in applyFilter appends to a value rooted in reflect.MakeSlice — through
+// earlier Appends and phis, or through a parameter for which every caller passes such a value.
+// An accumulator that is a re-slice of the list being read (items.Slice(0, 0): "compact in
+// place") is overwritten ahead of the read position as soon as one item is kept twice, which an
+// index-array predicate with repeated positions does.
+// ---------------------------------------------------------------------------------------
+
+func runACCFRESH(c *Ctx, r *Result, rule string) int {
+	f := c.mustFn(r, "jsonata.applyFilter")
+	if f == nil {
+		return 0
+	}
+	onPath := map[ssa.Value]bool{}
+	var fresh func(v ssa.Value, depth int) bool
+	fresh = func(v ssa.Value, depth int) bool {
+		if depth > 20 {
+			return false
+		}
+		switch x := v.(type) {
+		case *ssa.Phi:
+			if onPath[v] {
+				return true
+			}
+			onPath[v] = true
+			defer delete(onPath, v)
+			for _, e := range x.Edges {
+				if !fresh(e, depth+1) {
+					return false
+				}
+			}
+			return len(x.Edges) > 0
+		case *ssa.Call:
+			switch staticName(x) {
+			case "reflect.MakeSlice":
+				return true
+			case "reflect.Append", "reflect.AppendSlice":
+				return fresh(x.Call.Args[0], depth+1)
+			}
+			return false
+		case *ssa.Parameter:
+			g := x.Parent()
+			idx := -1
+			for i, q := range g.Params {
+				if q == x {
+					idx = i
+				}
+			}
+			sites, ok := c.staticCallers(g)
+			if !ok || idx < 0 || len(sites) == 0 {
+				return false
+			}
+			for _, s := range sites {
+				if idx >= len(s.Common().Args) || !fresh(s.Common().Args[idx], depth+1) {
+					return false
+				}
+			}
+			return true
+		}
+		return false
+	}
+	n := 0
+	for _, ci := range callsIn(f) {
+		call, ok := ci.(*ssa.Call)
+		if !ok || staticName(call) != "reflect.Append" {
+			continue
+		}
+		n++
+		o := Obligation{Rule: rule, Key: fmt.Sprintf("applyFilter:append#%d", n), Fn: shortFn(f), Pos: c.W.Pos(call.Pos()), Nontrivial: true}
+		if fresh(call.Call.Args[0], 0) {
+			o.Verdict, o.Reason = Discharged, "the survivors are appended to a list made with reflect.MakeSlice for them"
+		} else {
+			o.Verdict, o.Reason = Finding, "the survivors are appended to " + describeVal(call.Call.Args[0]) + ", which is not (on every path and at every call) a list made for them: collecting them in a re-slice of the list being filtered overwrites items that have not been read yet when one item is kept more than once"
+		}
+		r.Add(o)
+	}
+	return n
+}
+
+// ---------------------------------------------------------------------------------------
+// SORTGATE (C13): a collector that skips members of the wrong type runs only on arrays that were
+// checked as a whole.
+//
+// sortNumberArray / sortStringArray copy the members that jtypes.AsNumber / AsString accept and
+// silently leave out the others (they have no error result). That is right only because $sort
+// calls them behind jtypes.IsArrayOf(v, IsNumber / IsString), which looks at every member. Rule:
+// every call of such a collector (a jlib function without an error result whose loop over the
+// array keeps only the members an As… helper accepts) lies on the true edge of jtypes.IsArrayOf
+// applied to the same value. A dispatch that looks at the first member only lets `$sort(["b",
+// true, "a"])` return ["a", "b"] instead of an error.
+// ---------------------------------------------------------------------------------------
+
+func runSORTGATE(c *Ctx, r *Result, rule string) int {
+	lib := c.W.Lib["jlib"]
+	if lib == nil {
+		return 0
+	}
+	collectors := map[*ssa.Function]bool{}
+	for _, f := range c.W.FuncsOf(PkgSet{lib.Types: true}) {
+		if !c.REval.Set[f] || len(f.Params) != 1 || !isReflectValue(f.Params[0].Type()) || len(findLoops(f)) == 0 {
+			continue
+		}
+		res := f.Signature.Results()
+		if res.Len() != 1 {
+			continue
+		}
+		if _, isSlice := res.At(0).Type().Underlying().(*types.Slice); !isSlice {
+			continue
+		}
+		for _, ci := range callsIn(f) {
+			g := ci.Common().StaticCallee()
+			if g == nil || (shortFn(g) != "jtypes.AsNumber" && shortFn(g) != "jtypes.AsString") {
+				continue
+			}
+			collectors[f] = true
+		}
+	}
+	n := 0
+	for _, f := range c.W.FuncsOf(PkgSet{lib.Types: true}) {
+		if !c.REval.Set[f] {
+			continue
+		}
+		ord := 0
+		for _, ci := range callsIn(f) {
+			g := ci.Common().StaticCallee()
+			if g == nil || !collectors[g] || len(ci.Common().Args) != 1 {
+				continue
+			}
+			ord++
+			n++
+			v := ci.Common().Args[0]
+			o := Obligation{Rule: rule, Key: fmt.Sprintf("%s:%s#%d", shortFn(f), g.Name(), ord), Fn: shortFn(f), Pos: c.W.Pos(ci.Pos()), Nontrivial: true}
+			gated := domGuard(ci.Block(), func(cond ssa.Value) (int, bool) {
+				m, ok := cond.(*ssa.Call)
+				if !ok || m.Call.StaticCallee() == nil || shortFn(m.Call.StaticCallee()) != "jtypes.IsArrayOf" || len(m.Call.Args) != 2 || m.Call.Args[0] != v {
+					return 0, false
+				}
+				return 0, true
+			})
+			if gated {
+				o.Verdict, o.Reason = Discharged, "called on the true edge of jtypes.IsArrayOf on the same array: every member has the type the collector keeps"
+			} else {
+				o.Verdict, o.Reason = Finding, g.Name() + " leaves out members of another type without an error, and this call is not behind jtypes.IsArrayOf on the same array: an array with one member of another type is sorted with that member silently dropped"
+			}
+			r.Add(o)
+		}
+	}
 	return n
 }
